@@ -43,11 +43,29 @@ def inner_decl(name, c, annotate):
     return "%s%sstruct%s %s {\n%s\n};%s" % (pre, doc, attrs, name, "\n".join(fields), post)
 
 
-def render(cases, cxx):
+def how_blocklisted(k, c):
+    """the property names three ways to blocklist a type: by type pattern, by item pattern, by the file that
+    declares it - the file reached through a real directory or through a symbolic link"""
+    if c["mark"] != "blocklist":
+        return None
+    return ["type", "item", "file", "file-symlink"][k % 4]
+
+
+def render(cases, cxx, w=None):
     lines = []
+    if w:
+        os.makedirs(os.path.join(w, "inc"), exist_ok=True)
+        if not os.path.lexists(os.path.join(w, "lnk")):
+            os.symlink("inc", os.path.join(w, "lnk"))
     for k, c in enumerate(cases):
         n = "I%04d" % k
-        lines.append(inner_decl(n, c, c["mark"] == "opaque-annotation"))
+        how = how_blocklisted(k, c)
+        if w and how in ("file", "file-symlink"):
+            with open(os.path.join(w, "inc", n + ".h"), "w") as f:
+                f.write(inner_decl(n, c, False) + "\n")
+            lines.append('#include "%s/%s.h"' % ("inc" if how == "file" else "lnk", n))
+        else:
+            lines.append(inner_decl(n, c, c["mark"] == "opaque-annotation"))
         lines.append("struct C%04d { char pre; struct %s m; struct %s arr[2]; struct %s *p; short post; };" % (k, n, n, n))
         lines.append("void use_%s(struct %s v, const struct %s *q);" % (n, n, n))
         # containers that reach the marked type through exactly one kind of use
@@ -69,7 +87,11 @@ def flags_for(cases):
         n = "I%04d" % k
         if c["mark"] == "blocklist":
             il = c["inner"]
-            fl += ["--blocklist-type", n, "--raw-line",
+            how = how_blocklisted(k, c)
+            fl += {"type": ["--blocklist-type", n], "item": ["--blocklist-item", n],
+                   "file": ["--blocklist-file", ".*/inc/%s\\.h" % n],
+                   "file-symlink": ["--blocklist-file", ".*/lnk/%s\\.h" % n]}[how]
+            fl += ["--raw-line",
                    "#[repr(C, align(%d))] #[derive(Copy, Clone)] pub struct %s { pub _b: [u8; %d] }" % (il["align"], n, il["size"])]
         elif c["mark"] == "opaque-option":
             fl += ["--opaque-type", n]
@@ -129,7 +151,7 @@ def one_language(res, tier, cases, cxx):
     w = C.workdir("c10-" + tag)
     hp = os.path.join(w, "prog.hpp" if cxx else "prog.h")
     with open(hp, "w") as f:
-        f.write(render(cases, cxx))
+        f.write(render(cases, cxx, w))
     out = os.path.join(w, "b.rs")
     log = os.path.join(w, "b.ndjson")
     env = dict(os.environ)
@@ -188,7 +210,11 @@ def one_language(res, tier, cases, cxx):
             if e and (not e["is_opaque"] or e["size"] != cl[n]["size"] or e["align"] != cl[n]["align"]):
                 res.violation("opaque-comp-event-numbers:" + shape, {"type": n, "event": [e["size"], e["align"]], "clang": cl[n]})
         # a blocklist / opaque marking of a *type* must not touch a function of the same name
-        if not cxx and ("pubfn%s(x:" % n) not in uses:
+        # (--blocklist-item is the one form that names every kind of item: there the function goes too)
+        if how_blocklisted(k, c) == "item":
+            if not cxx and ("pubfn%s(x:" % n) in uses:
+                res.violation("blocklist-item-leaves-function:" + shape, {"name": n})
+        elif not cxx and ("pubfn%s(x:" % n) not in uses:
             res.violation("function-sharing-the-marked-types-name-missing:" + shape, {"name": n})
         # single-use containers: array / nested array / pointer of the marked type
         for pre in ("A", "M", "P"):
